@@ -91,6 +91,20 @@ META["C06"] = {
     "require": {"quick": {"subject_types_covered": 5, "histories_with_subscribe_inside_callback": 2000}, "thorough": {"subject_types_covered": 5}},
 }
 
+META["C08"] = {
+    "title": "Time and async sources emit exactly what and when they promise",
+    "rule": "cases = (source, take count, local|threads scheduler form, FIFO|any task order, due-stepping|late schedule, schedule seed). Sources: interval / interval_at with periods {1,7,100} ms and instants {past, now, +10ms, +250ms, +1h}; timer / timer_at with delays {0,1,7,100} ms and the same instants; from_future(_result) / from_stream(_result) over scripted futures/streams (ready at once, pending k polls self-woken or woken by the explorer, error at position i, empty). Due-stepping runs fire one due timer at a time and run tasks to quiescence (exact 'one period' oracle); late runs leave tasks waiting and jump the clock ('never earlier' oracle). Non-trivial: >= 2 ticks observed, or the future/stream was pending at least once; distinct = hash(case).",
+    "assumptions": COMMON_ASSUME + [
+        "the _at forms read the real Instant::now(): the instant is placed relative to the case's start and the real time the case took (plus 1 ms) is the tolerance on 'never earlier'; 'exactly' is only demanded of due-stepping runs on the virtual clock",
+        "for an instant that has already passed the first interval_at tick may come anywhere between 'now' and one period later",
+    ],
+    "technique": "runtime monitoring: virtual-time stamps recorded by the probe for real interval/timer/from_* sources under an explorer-chosen timer/task order, checked against a timed reference model",
+    "level_text": "Exploration over sampled (source, schedule) pairs on a virtual clock; exact timing on due-stepping runs, lower bounds on all runs.",
+    "level_note": "Trusted: the virtual clock behind NEW_TIMER_FN, the arena executor behind VerifScheduler, scripted futures/streams.",
+    "design_ref": "DESIGN.md §5 C08",
+    "require": {"quick": {"sources_covered": 8}, "thorough": {"sources_covered": 8}},
+}
+
 
 # properties without a check yet are listed here with the reason; the list shrinks as checks land
 ALL_IDS = ['C01', 'C02', 'C03', 'C04', 'C05', 'C06', 'C07', 'C08', 'C09', 'C10', 'C11', 'C12', 'C13', 'C14', 'C15', 'C16', 'C17', 'C18', 'C19', 'C20']
